@@ -159,6 +159,7 @@ PROPS = {
         "units": [
             regress("C16"),
             {"run": "^TestC16$", "quick": 2000, "thorough": 20000},
+            {"run": "^TestC16Rows$", "quick": 1, "thorough": 1, "single": True, "rapid": False},
         ],
     },
     "C18": {
